@@ -163,6 +163,7 @@ type Shape struct {
 const (
 	fileOpen = 0x77 // download opened by FS_DOWNLOAD in S3
 	fileBof  = 0x78 // download opened by CALLBACK_FILE in S3
+	fileFull = 0x79 // download opened in S3 whose local file is on a full device (/dev/full)
 	fileNew  = 0x79
 
 	sockFwd   = 0x51 // rportfwd socket present in S2.. (Conn == nil, target 127.0.0.1:1)
@@ -288,6 +289,7 @@ func Shapes() []*Shape {
 	add(sh("FS/DIR/failed", agent.COMMAND_FS, dirHead(false, false, false)...))
 	add(sh("FS/DOWNLOAD/open", agent.COMMAND_FS, i32("Sub", agent.DEMON_COMMAND_FS_DOWNLOAD), i32("Mode", 0), i32("FileID", fileNew), i64("FileSize", 2048), wstr("FileName", `C:\Users\x\new.txt`)).tag("dl"))
 	add(sh("FS/DOWNLOAD/write", agent.COMMAND_FS, i32("Sub", agent.DEMON_COMMAND_FS_DOWNLOAD), i32("Mode", 1), i32("FileID", fileOpen), byts("Chunk", []byte("chunk-of-file-data"))).tag("dl"))
+	add(sh("FS/DOWNLOAD/write-full-disk", agent.COMMAND_FS, i32("Sub", agent.DEMON_COMMAND_FS_DOWNLOAD), i32("Mode", 1), i32("FileID", fileFull), byts("Chunk", []byte("chunk-of-file-data"))).tag("dl"))
 	add(sh("FS/DOWNLOAD/close", agent.COMMAND_FS, i32("Sub", agent.DEMON_COMMAND_FS_DOWNLOAD), i32("Mode", 2), i32("FileID", fileOpen), i32("Reason", 0)).tag("dl"))
 	add(sh("FS/DOWNLOAD/removed", agent.COMMAND_FS, i32("Sub", agent.DEMON_COMMAND_FS_DOWNLOAD), i32("Mode", 2), i32("FileID", fileOpen), i32("Reason", 1)).tag("dl"))
 	add(sh("FS/UPLOAD", agent.COMMAND_FS, i32("Sub", agent.DEMON_COMMAND_FS_UPLOAD), i32("FileSize", 10), wstr("FileName", `C:\t\up.bin`)))
